@@ -64,6 +64,8 @@ static void
 ps_fini(void *d)
 {
 	(void) d;
+	/* every protocol's sock_fini walks state its sock_init set up (mutexes, lists, the embedded context's back pointer) */
+	CHECK(inits == 1, "C20: the protocol's sock_fini never runs on protocol state that sock_init has not initialised");
 	finis++;
 }
 static void
@@ -94,6 +96,7 @@ harness(void)
 	int rv = nni_sock_create(&s, &proto);
 #ifdef FAILQ
 	CHECK(rv == NNG_ENOMEM, "a failed allocation while creating a socket is reported as NNG_ENOMEM");
+	CHECK(finis == inits, "the protocol part is finalized iff it was initialised");
 	CHECK(env_alloc_live == live0, "and everything allocated so far is returned - each block with its own size");
 	WITNESS("creation failed cleanly");
 #else
